@@ -30,7 +30,8 @@ ASSUMPTIONS = ['restricted reach: only tensors the optimizers quantize during '
                'simulated runs (float32, rank 1-4); bfloat16 and direct calls '
                'are not decided']
 EXPECTED_PROBES = ['quantized_bucket_zero', 'int8_leaf', 'int16_leaf',
-                   'half_bucket_checked', 'carried_leaf_checked']
+                   'half_bucket_checked', 'carried_leaf_checked',
+                   'scaled_requantize']
 
 
 def generate(seed, idx, tier):
@@ -147,6 +148,70 @@ def check_quantized(ctx, mk, t, base, grp, rep=None):
   return deq
 
 
+_QJIT = {}
+
+
+def scaled_requantize(ctx, mk, t, base, deq, nb, diag):
+  """Exponent sweep on a reached tensor: the dequantized leaf, scaled by powers
+  of two towards the subnormal and the near-overflow end of float32, goes
+  through the repo's quantizer (eager and jitted) and must round-trip within
+  half a bucket without using the most-negative integer."""
+  import numpy as np
+  import jax
+  import jax.numpy as jnp
+  from precondition.quantization_utils import QuantizedValue
+  done = ctx.__dict__.setdefault('_scaled_done', 0)
+  if done >= 4 or deq is None or deq.size == 0:
+    return
+  amax = float(np.max(np.abs(deq)))
+  if not np.isfinite(amax) or amax == 0.0:
+    return
+  ctx._scaled_done += 1
+  dt = jnp.int8 if nb == 127 else jnp.int16
+  top = np.floor(np.log2(3.0e38 / amax))
+  for k in (top, top - 1, top - 13, 0.0, -60.0, np.ceil(np.log2(1e-37 / amax))):
+    x = np.asarray(deq, np.float64) * (2.0 ** float(k))
+    x32 = np.asarray(x, np.float32)
+    if not np.all(np.isfinite(x32)):
+      continue
+    for how in ('eager', 'jit'):
+      if how == 'eager':
+        qv = QuantizedValue.from_float_value(jnp.asarray(x32), dt, diag)
+      else:
+        fn = _QJIT.get((nb, diag))
+        if fn is None:
+          fn = jax.jit(lambda a: QuantizedValue.from_float_value(a, dt, diag))
+          _QJIT[(nb, diag)] = fn
+        qv = fn(jnp.asarray(x32))
+      q = np.asarray(qv.quantized).astype(np.int64)
+      back = np.asarray(qv.to_float(), np.float64)
+      ctx.probe('scaled_requantize')
+      ok = bool(np.all(np.abs(q) <= nb))
+      ctx.ev('q_range', 'ok' if ok else 'violation')
+      if not ok:
+        ctx.violate('q_range', mk, 'most_negative_or_out_of_range_integer',
+                    tick=t, leaf=base, log2_scale=float(k), how=how)
+      xr = np.asarray(x32, np.float64)
+      if diag:
+        off = xr - np.diag(np.diag(xr))
+      else:
+        off = xr
+      colmax = np.max(np.abs(off), axis=0) if off.ndim else np.abs(off)
+      tol = colmax / nb * 0.5 * (1 + 1e-3) + 4 * 2.0 ** -24 * colmax + 1e-45
+      if not np.all(np.isfinite(back)):
+        okh = False
+      else:
+        okh = bool(np.all(np.abs(back - xr) <= tol))
+      ctx.ev('q_halfbucket', 'ok' if okh else 'violation')
+      if not okh:
+        sub = bool(np.any((colmax > 0) & (colmax / nb < 2.0 ** -126)))
+        ctx.violate('q_halfbucket', mk,
+                    'bucket_size_subnormal' if sub else
+                    'scaled_tensor_off_by_more_than_half_bucket', tick=t,
+                    leaf=base, log2_scale=float(k), how=how,
+                    max_abs=float(np.max(np.abs(xr))))
+
+
 def quant_ds(ctx, rec):
   import numpy as np
   from sim.refmodel import ds as ref
@@ -158,6 +223,10 @@ def quant_ds(ctx, rec):
   S = cfg.get('start_preconditioning_step', 5)
   for base, grp in groups.items():
     deq = check_quantized(ctx, mk, t, base, grp, rep=view.rep)
+    if deq is not None and t % 3 == 1:
+      scaled_requantize(ctx, mk, t, base, deq,
+                        127 if grp['q'].dtype == np.int8 else 32767,
+                        grp['d'] is not None)
     role = base.split('.')[-1].split('[')[0]
     ctx.state(mk, str(grp['q'].dtype), role, int(np.any(np.asarray(grp['b']) == 0)),
               rec['opkind'])
@@ -204,7 +273,9 @@ def quant_sm3(ctx, rec):
   pg = _leaf_groups(rec['prev'])
   cfg = rec['cfg']
   for base, grp in groups.items():
-    check_quantized(ctx, mk, t, base, grp)
+    deq = check_quantized(ctx, mk, t, base, grp)
+    if deq is not None and t % 3 == 1:
+      scaled_requantize(ctx, mk, t, base, deq, 127, False)
     ctx.state(mk, 'int8', 'momentum', int(np.any(np.asarray(grp['b']) == 0)),
               int(rec['zero_tick']))
   for i, s in enumerate(rec['shapes']):
